@@ -35,7 +35,15 @@ func (t *Transformer) transformBind(wb *WireBind, pkg *types.Package) (*KessokuB
 	constructorName := "New" + typeName
 
 	var constructor *types.Func
-	if implPkg != nil {
+	// Prefer the provider of the implementation type that is listed in the same set
+	if ptr, ok := wb.Implementation.(*types.Pointer); ok {
+		if fn, ok := t.boundProviders[ptr.Elem().String()]; ok && fn.Pkg() != nil {
+			constructor = fn
+			constructorName = fn.Name()
+			implPkg = fn.Pkg()
+		}
+	}
+	if constructor == nil && implPkg != nil {
 		obj := implPkg.Scope().Lookup(constructorName)
 		if obj != nil {
 			if fn, ok := obj.(*types.Func); ok {
